@@ -848,6 +848,11 @@ impl World {
         };
 
         let reader_lines: Vec<Vec<String>> = readers.into_iter().map(|k| k.finish()).collect();
+        if std::env::var("HX_C19_DEBUG").is_ok() {
+            for (i, l) in reader_lines.iter().enumerate() {
+                eprintln!("reader {i}: {}", l.join(" | "));
+            }
+        }
         let hash_after = (file_hash(&dst_path), file_hash(Path::new(&format!("{}-wal", dst_path.display()))));
         if let Some(h) = holder {
             let _ = h.finish();
